@@ -890,7 +890,7 @@ func c13(ctx *core.Ctx) {
 			ci++
 			if !ctx.Skip(ci) {
 				ctx.Case(ci, "direct churn provider="+prov)
-				directChurn(ctx, ci, prov, 8, ctx.N(100, 300))
+				directChurn(ctx, ci, prov, 8, ctx.N(250, 400))
 				if atomic.LoadInt32(&c13Abort) != 0 {
 					return
 				}
